@@ -3,7 +3,11 @@
 Only the property text and a scratch worktree path are given (nothing from /verif)."""
 import json, sys
 pid, wt = sys.argv[1], sys.argv[2]
+hard = len(sys.argv) > 3 and sys.argv[3] == "hard"
 p = next(json.loads(l) for l in open('/verif/properties.jsonl') if json.loads(l)['id'] == pid)
+HARD = """
+
+IMPORTANT - make them HARD to find: assume that, besides the existing suite, a strong randomized property-based test harness already exists for this property, with edge-biased generators (0, 1, MAX, 2^k and 2^k +- 1, limbs drawn from {0, MAX, 1, 2^63, ...}, runs of ones ending at limb boundaries, random bit lengths, operands related to each other as a, a +- 1, !a, -a, zero-padded values), all the limb widths the property lists, and an exact big-integer oracle for every API form. Your changes should SURVIVE such a harness unless its generator happens to be built for exactly your trigger. Good directions: a trigger that is a conjunction of two or three independent conditions (a specific width AND a specific operand relation AND a specific form); only ONE of the many API forms affected (one operator impl such as `&T op T`, one trait impl that delegates differently, one `_assign` form, one wrapper type); only one unusual width (a non-power-of-two limb count, a specific boxed precision such as 3 or 33 limbs, or mixed left/right widths); a value class that edge-biased generators do not produce (e.g. a specific middle limb equal to a constant while its neighbours are random, an interior carry pattern, a magic constant); history / state dependence (a value that was produced by a particular earlier operation, an object reused after a particular call); or behaviour that differs only between the optimized and the debug-assertion build.""" if hard else ""
 print(f"""You are helping evaluate a verification effort for the Rust crate RustCrypto/crypto-bigint (a constant-time big-integer library). You have your own scratch git worktree of the crate at {wt} (work ONLY there; never read or touch /repo or /verif; the machine is offline, use `cargo ... --offline`; keep build output inside the worktree's own target/ directory, and limit builds to `-j 4`).
 
 Here is a semantic property the crate should satisfy:
@@ -13,7 +17,7 @@ STATEMENT: {p['statement']}
 QUANTIFIER: {p['quantifier']['text']}
 RELEVANT FILES: {', '.join(p['anchors']['files'])}
 
-Your job: produce TWO different, independent, realistic code changes (call them A and B) to the crate's source under {wt}/src, each of which BREAKS this property while the crate still compiles and the ENTIRE existing test suite still passes (`cargo test --offline -j 4` with default features, and also `cargo test --offline -j 4 --all-features`; unit tests, integration tests in tests/, and doc-tests must all still pass, unedited). The changes should look like plausible bugs a maintainer could introduce (an off-by-one in a loop bound, a dropped carry, a wrong mask, a swapped select, a boundary comparison, a missed special case, a helper replaced by a subtly different one), NOT ones that ordinary use would expose at once: each should need something specific to manifest — an unusual input (particular limb pattern, a specific width/precision, a boundary value), a multi-step sequence of operations, a rare internal path (e.g. a correction step that triggers with probability 2^-64 on random input but can be constructed), or two cooperating sites that each look fine alone. Prefer the two changes to be in different files / code paths and of different character. Do not edit any existing test.
+Your job: produce TWO different, independent, realistic code changes (call them A and B) to the crate's source under {wt}/src, each of which BREAKS this property while the crate still compiles and the ENTIRE existing test suite still passes (`cargo test --offline -j 4` with default features, and also `cargo test --offline -j 4 --all-features`; unit tests, integration tests in tests/, and doc-tests must all still pass, unedited). The changes should look like plausible bugs a maintainer could introduce (an off-by-one in a loop bound, a dropped carry, a wrong mask, a swapped select, a boundary comparison, a missed special case, a helper replaced by a subtly different one), NOT ones that ordinary use would expose at once: each should need something specific to manifest — an unusual input (particular limb pattern, a specific width/precision, a boundary value), a multi-step sequence of operations, a rare internal path (e.g. a correction step that triggers with probability 2^-64 on random input but can be constructed), or two cooperating sites that each look fine alone. Prefer the two changes to be in different files / code paths and of different character. Do not edit any existing test.{HARD}
 
 For each change X in {{A, B}} deliver, in the directory {wt}/SEED/X/ :
   - patch.diff : `git diff` of the source change only (relative to the worktree HEAD; src/ files only), applicable with `git apply`.
